@@ -5,6 +5,7 @@
 #include "vprelude.h"
 #include "mem.h"   /* Lib/utils/mem.h : m_memhook_t, extern memhook */
 #include "log.h"   /* Lib/utils/log.h : m_logger, extern libmodule_logger */
+#include "loopspecs.h"  /* defaults for every M_VERIF_LOOP anchor the unit did not define itself */
 
 /* The library's own definition lives in Lib/utils/mem.c with initialiser {malloc,calloc,free}; taking
  * the address of CBMC's calloc model crashes goto-instrument, and --dfcc havocs statics anyway, so the
